@@ -10,6 +10,7 @@ CONSTANTS
   MaxKills = 2
   MaxInterrupts = 1
   RepairPartial = TRUE
+  TailSave = TRUE
   Planned = FALSE
 INIT Init
 NEXT Next
